@@ -375,6 +375,15 @@ func runC09(p *Program, r *Report) {
 		if arguedSafe[key] == "" && arguedSafe["commit|"+fs.field] != "" && onlyCalledBy(fs.fn, "commit") {
 			key = "commit|" + fs.field
 		}
+		// a step of one of the argued functions extracted into a helper that only that function (or commit) uses
+		if arguedSafe[key] == "" {
+			for k := range arguedSafe {
+				parts := strings.SplitN(k, "|", 2)
+				if parts[1] == fs.field && helperOnlyOf(p, fs.fn, func(g *ssa.Function) bool { return cname(g) == parts[0] || cname(g) == "commit" }, 0) {
+					key = k
+				}
+			}
+		}
 		switch {
 		case fs.fresh:
 			r.OK("C09.R2", c, pos, "object created in the same function (not yet published)")
